@@ -247,7 +247,12 @@ func (e *bEngine) loadAt(st *bState, p bPtr) bVal {
 	var cur bVal
 	if o.arr {
 		if len(comps) == 0 {
-			panic(verr("load of a whole array object"))
+			// the whole array as a value: its elements so far, the others materialise under the same names
+			av := &bStruct{typ: types.NewArray(o.typ, 0), sym: o.sym, f: map[string]bVal{}, ver: o.ver}
+			for k, ev := range o.elems {
+				av.f[k] = ev
+			}
+			return av
 		}
 		cur = e.elem(st, o, comps[0])
 		comps = comps[1:]
